@@ -852,6 +852,9 @@ class Engine:
         return VLambda(n, dict(st.locals))
 
     def call_lambda(self, lam, args, kw, st):
+        nm_ = getattr(lam.node, "name", None)
+        if nm_ is not None and nm_ in getattr(self, "nested_models", {}):       # a closure called by its contract (its body is verified as a nested function of its own)
+            return self.nested_models[nm_](self, st, args, kw)
         sub = State()
         sub.heap, sub.pc, sub.ghost, sub.decisions = st.heap, st.pc, st.ghost, st.decisions
         sub.locals = dict(lam.env)
@@ -1235,6 +1238,8 @@ class Engine:
                 conj.append({ast.Lt: x < y, ast.LtE: x <= y, ast.Gt: x > y, ast.GtE: x >= y, ast.Eq: x == y, ast.NotEq: x != y}[type(op)])
             elif isinstance(left, VStr) and isinstance(right, VStr):
                 conj.append(z3.BoolVal({ast.Eq: left.s == right.s, ast.NotEq: left.s != right.s}[type(op)]))
+            elif isinstance(op, (ast.Eq, ast.NotEq)) and ((isinstance(left, VTuple) and isinstance(right, VStr)) or (isinstance(left, VStr) and isinstance(right, VTuple))):
+                conj.append(z3.BoolVal(isinstance(op, ast.NotEq)))       # a list / tuple never equals a string
             elif isinstance(left, VName) and isinstance(right, VName) and isinstance(op, (ast.Eq, ast.NotEq)):
                 conj.append(left.e == right.e if isinstance(op, ast.Eq) else left.e != right.e)
             elif isinstance(left, VTuple) and isinstance(right, VTuple) and isinstance(op, (ast.Eq, ast.NotEq)) and all(isinstance(q_, (VNum, VNone)) for q_ in left.items + right.items) and any(isinstance(q_, VNone) for q_ in left.items + right.items):
@@ -1467,6 +1472,10 @@ class Engine:
             return VNone()
         if isinstance(f, VBound) and isinstance(f.recv, VExternal):
             f.recv.rec["calls"].append((f.name, list(args), dict(kw)))
+            st.ghost = dict(st.ghost)        # per-path trace (rec['calls'] is shared by all paths)
+            st.ghost["ext_calls"] = st.ghost.get("ext_calls", ()) + ((f.recv.name, f.name, tuple(args), dict(kw)),)
+            if f.name in getattr(self, "ext_results", {}):
+                return self.ext_results[f.name](self, st, args, kw)
             return VOpaque(("ext", f.recv.name, f.name, len(f.recv.rec["calls"])))
         if isinstance(f, VBound) and isinstance(f.recv, VDict) and f.name in ("keys", "values", "items"):
             return VTuple([VStr(k_) if isinstance(k_, str) else VOpaque(k_) for k_ in f.recv.d] if f.name == "keys" else list(f.recv.d.values()) if f.name == "values" else [VTuple([VStr(k_), v_]) for k_, v_ in f.recv.d.items()])
@@ -1645,6 +1654,16 @@ class Engine:
             raise Unsupported("stmt " + type(n).__name__)
         return m(n, st)
 
+    def st_ImportFrom(self, n, st):
+        """`from m import A, B` inside a function: the names become class / function references (resolved through the loaded files or lib models)"""
+        for al in n.names:
+            nm = al.asname or al.name
+            st.locals[nm] = VLib(("class:" + al.name) if (al.name in self.repo.classes or ("class:" + al.name) in self.lib) else al.name)
+        return [(st, "next", None)]
+
+    def st_Import(self, n, st):
+        return [(st, "next", None)]
+
     def st_Try(self, n, st):
         outs = []
         for s, flow, val in self.run(n.body, st):
@@ -1712,6 +1731,12 @@ class Engine:
                 return [(st, "next", None)]
             self.ev(n.value, st)
             return [(st, "next", None)]
+        if isinstance(n.value, ast.Attribute) and n.value.attr == "ndim":       # `x.ndim` as a probe: a plain python number has no such attribute
+            v_ = self.ev(n.value.value, st)
+            if isinstance(v_, VNum) and getattr(v_, "python_number", False):
+                raise PyRaise("AttributeError")
+            self.ev(n.value, st)
+            return [(st, "next", None)]
         raise Unsupported("expr stmt " + ast.unparse(n))
 
     def st_Raise(self, n, st):
@@ -1756,6 +1781,8 @@ class Engine:
         elif isinstance(t, ast.Attribute) and isinstance(self.ev(t.value, st), VExternal):
             ex_ = self.ev(t.value, st)
             ex_.rec["calls"].append(("set:" + t.attr, [v], {}))
+            st.ghost = dict(st.ghost)
+            st.ghost["ext_calls"] = st.ghost.get("ext_calls", ()) + ((ex_.name, "set:" + t.attr, (v,), {}),)
         elif isinstance(t, ast.Attribute):
             base = self.ev(t.value, st)
             if self.ftype(base.cls, t.attr) is not None:
